@@ -776,7 +776,7 @@ fn main() {
         tier,
         level: "model_checking",
         rule: "(1) for each of the 7 process-wide settings and each thread program (2-3 threads x 1-3 operations from {set A, set B, first use}) shuttle's DFS explores every interleaving of the settings operations (each get/set/get_or_init of the instrumented cell is one atomic step and a scheduling point); per schedule all operations and a later read must observe one value, and it must be the value of some thread's first operation; (2) 14 limit values from 0 to usize::MAX, each in a fresh process: declared length L+1 rejected by the limit and L-1, L accepted on every decoder path (bytes/string in both decoders, fixed size, container block size, snappy declared length, deflate output, array block count); (3) fresh processes with 4 racing OS threads on the uninstrumented primitive. A class is a (setting, thread program) whose schedules produced at least two different observation logs, or a limit value".into(),
-        bounds: json!({"settings": settings().len(), "thread_programs": scenarios(tier).len(), "limits": limits, "instrumented": instrumented}),
+        bounds: json!({"settings": settings().len(), "thread_programs": scenarios(tier).len(), "limits": limits.iter().map(|l| l.to_string()).collect::<Vec<_>>(), "instrumented": instrumented}),
         assumptions: vec!["std::sync::OnceLock's methods are linearizable (the shim replaces each by one atomic step); weak-memory behaviour is not explored".into(), "the instrumentation rewrites `std::sync::OnceLock` imports of the crate at build time; a setting that stops using OnceLock is only covered by parts (2) and (3)".into()],
         exhaustive: true,
         extra: json!({}),
